@@ -18,7 +18,7 @@ RULE = ('(i) exhaustive: case = block of forced issue bit-sets x {correct, wrong
         'advisory bit present, or an expired/revoked real key; distinct = distinct (bit-set, variant) or real-case descriptors')
 ASSUMPTIONS = ['the set of disqualifying conditions is the one the library documents in SecurityIssues.causes_signature_verify_to_fail: '
                'WrongSig, Expired, Disabled, Invalid, NoSelfSignature', 'forcing the soundness result replaces only the *input* of the aggregator']
-MIN_COUNTERS = {'forced_verdicts': 8000, 'partition_checked': 8000, 'real_verdicts': 40, 'real_expired': 8, 'monotonic_pairs': 10000}
+MIN_COUNTERS = {'forced_verdicts': 8000, 'partition_checked': 8000, 'real_verdicts': 40, 'real_expired': 8, 'monotonic_pairs': 10000, 'same_second_pairs': 12}
 BUDGET = {'quick': (600, 1500), 'thorough': (1200, 3600)}
 TECHNIQUE = 'runtime monitoring: fault enumeration at the verdict aggregator (all 2^11 issue bit-sets) + verdict-model oracle + partition invariant on every result'
 
@@ -339,6 +339,45 @@ def _multi(ctx, d, pgpy, SI):
         good, bad = check_partition(ctx, sv, {'multi': nbad})
         if len(sv) != 3 or len(bad) != nbad or bool(sv) != (nbad == 0):
             ctx.fail('multi-signature-verdict', {'nbad': nbad, 'n': len(sv), 'bad': len(bad), 'bool': bool(sv)})
+    # signatures that agree in signer, kind, hash and creation second are still different signatures: each is examined and listed
+    from datetime import datetime, timezone
+    from ..ref import wire
+    t = datetime(2020, 2, 2, 2, 2, 2, tzinfo=timezone.utc)
+    unc = pgpy.constants.CompressionAlgorithm.Uncompressed
+    for signer in (k, sub):
+        for label in ('good-then-wrong', 'wrong-then-good', 'good-good'):
+            m = pgpy.PGPMessage.new('same second', compression=unc)
+            other = pgpy.PGPMessage.new('same sec0nd', compression=unc)
+            g1 = signer.sign(m, created=t)
+            g2 = signer.sign(m, created=t, notation={'n@example.org': 'second signature of the same second'})
+            w = signer.sign(other, created=t)
+            for x in {'good-then-wrong': (g1, w), 'wrong-then-good': (w, g1), 'good-good': (g1, g2)}[label]:
+                m |= x
+            for form, mm in (('built', m), ('reloaded', pgpy.PGPMessage.from_blob(bytes(m)))):
+                sv = pub.verify(mm)
+                ctx.count('real_verdicts')
+                ctx.count('same_second_pairs')
+                ctx.count('evaluations')
+                good, bad = check_partition(ctx, sv, {'multi': label})
+                nbad = 0 if label == 'good-good' else 1
+                if len(sv) != 2 or len(bad) != nbad or bool(sv) != (nbad == 0):
+                    ctx.fail('multi-signature-verdict', {'same_second': label, 'form': form, 'signer': 'key' if signer is k else 'subkey', 'n': len(sv), 'bad': len(bad), 'bool': bool(sv)})
+    # ... the same inside a key: two identities certified in the same second, the name of one altered afterwards
+    k2 = pool.pgpy_key('ed25519_2', fresh=True, uid='First Identity', created=1500000000)
+    k2.userids[0] |= k2.certify(k2.userids[0], created=t, usage={pgpy.constants.KeyFlags.Sign, pgpy.constants.KeyFlags.Certify})
+    k2.add_uid(pgpy.PGPUID.new('Second Identity'), created=t, usage={pgpy.constants.KeyFlags.Sign, pgpy.constants.KeyFlags.Certify})
+    pk = wire.split(bytes(k2.pubkey))
+    uidx = [i for i, p_ in enumerate(pk) if p_.tag == 13]
+    for which in uidx:
+        blob = b''.join((wire.new_hdr(13, len(p_.body)) + p_.body[:-1] + b'!') if i == which else p_.raw for i, p_ in enumerate(pk))
+        kk = pgpy.PGPKey.from_blob(blob)[0]
+        sv = kk.verify(kk)
+        ctx.count('real_verdicts')
+        ctx.count('same_second_pairs')
+        ctx.count('evaluations')
+        good, bad = check_partition(ctx, sv, {'multi': 'identities-same-second'})
+        if bool(sv) or not bad:
+            ctx.fail('multi-signature-verdict', {'same_second': 'two identities, the name of one altered', 'altered_packet_index': which, 'n': len(sv), 'bad': len(bad), 'bool': bool(sv)})
     ctx.nontrivial(d)
 
 
